@@ -1,6 +1,6 @@
 import BoltonsVerif.Common
 import BoltonsVerif.C01.Model
-import BoltonsVerif.C01.LL
+import BoltonsVerif.C01.Concrete
 /-
 C01 line protocol.  One line = one whole history on the two registers `s`, `t`:
     <nk> <op> <op> ...
@@ -19,8 +19,9 @@ ids probed by the per-key readers.  Fields of an op are separated by `:`.
   sorted:fn:rev  (fn = n|k|v|c)   sv:fn:rev  (fn = n|m|g|c)           -> `O<pairs>`
 `todict()` / `todict(multi=True)` are dicts: printed sorted by key id on both sides.
 Output: one `;`-separated record per op: `<ret> <dump of every reader of s> T<pairs of t>`.
-The history runs on the concrete layer (`LL.lean`: cells with identities + `_map`, `hstep3`); the
-readers walk its abstraction (`HState3.abs`), as `iteritems(multi=True)` walks the linked list.
+The history runs on the concrete layer (`Concrete.lean`: dict + pointer-level linked list + `_map`,
+`hstep3`); the readers walk its abstraction (`HState3.abs`), as `iteritems(multi=True)` walks the
+linked list; `__reversed__` (`R`) walks the `PREV` pointers of the heap.
 -/
 namespace C01.Driver
 open BV C01
@@ -49,7 +50,8 @@ def showOut : Out Nat Nat → String
   | .err e => "X" ++ (showErr e).drop 1
   | .abort => "XBoom"
 
-def dump (nk : Nat) (st : HState Nat Nat) : String :=
+def dump (nk : Nat) (st3 : HState3 Nat Nat) : String :=
+  let st := st3.abs
   let s := st.s
   let ks := List.range nk
   let inv := s.inverted
@@ -57,7 +59,7 @@ def dump (nk : Nat) (st : HState Nat Nat) : String :=
     s!"IM{showPairs s.itemsM}", s!"I{showE showPairs s.items}",
     s!"KM{showNats s.keysM}", s!"K{showNats s.keys}",
     s!"VM{showNats s.valuesM}", s!"V{showE (showNats ·) s.values}",
-    s!"L{s.len}", s!"BO{if s.bool then 1 else 0}", s!"IT{showNats s.iter}", s!"R{showE (showNats ·) s.reversed}",
+    s!"L{s.len}", s!"BO{if s.bool then 1 else 0}", s!"IT{showNats s.iter}", s!"R{showE (showNats ·) st3.s.reversed}",
     s!"TD{showE (fun l => showPairs (sortBy (fun a b => decide (a.1 ≤ b.1)) l)) s.todict}",
     s!"TM{",".intercalate ((sortBy (fun a b => decide (a.1 ≤ b.1)) s.todictM).map fun kv => s!"{kv.1}={showVals kv.2}")}",
     s!"G{",".intercalate (ks.map fun k => showE (fun o => match o with | some v => toString v | none => "D") (s.get k))}",
@@ -177,9 +179,9 @@ def stepTok (nk : Nat) (st : HState3 Nat Nat) (tok : String) : Option (HState3 N
   match parseOp? st.abs tok with
   | some op =>
     let r := hstep3 st op
-    some (r.1, s!"{showOut r.2} {dump nk r.1.abs}")
+    some (r.1, s!"{showOut r.2} {dump nk r.1}")
   | none => match query? st.abs tok with
-    | some out => some (st, s!"{out} {dump nk st.abs}")
+    | some out => some (st, s!"{out} {dump nk st}")
     | none => none
 
 def handle (line : String) : String :=
